@@ -7,7 +7,7 @@ six potential arrays of shape (n_long, n_colat, n_time) (meshgrid indexing='ij')
 
 Generated (Hypothesis)
   degree l in 2..4; 1..4 radii 1e3..1e7 m; per radius complex y1..y4 (log-uniform magnitudes y1,y3 1e-6..1,
-  y2,y4 1..1e8, arbitrary phases), shear |mu| 1e7..1e12 with loss angle 0..1.5 rad, bulk 1e8..1e13 (float array,
+  y2,y4 1..1e8, arbitrary phases), shear |mu| 1e7..1e12 with loss angle 0.002..1.5 rad, bulk 1e8..1e13 (float array,
   or complex array with loss angle 0..0.3); `elastic` cases have real moduli and real y (`elastic_cy`: real
   moduli, complex y); longitude (0..2pi), colatitude (0.05..pi-0.05) and time grids of 1..6 points each;
   potentials satisfying the degree-l surface Laplace identity by construction:
@@ -32,16 +32,21 @@ Oracles, at every radius and grid point (lam = K - 2 mu/3 computed by the harnes
   shape      outputs have shape (6, n_r, n_long, n_colat, n_time) / (n_r, n_long, n_colat, n_time).
 
 Tolerances (plan: 1e-12 / 1e-11 / 1e-12 / 1e-14) and calibration on the unchanged tree (module-level STATS over
-3 seeds x 1 500 cases): worst error/scale  hooke 2.4e-16, sigma_rr 3.3e-16, sigma_rth/rph 3.4e-16, heating 2.6e-16,
-elastic (real y) exactly 0, elastic (complex y) 3.5e-16 (tolerance for that sub-case 1e-13).  A wrong coefficient
-moves the hooke / sigma_rr residual to O(0.01..1) of the scale.
+3 seeds x 800 cases): worst error/scale  hooke 3.6e-16, sigma_rr 2.0e-14 (= the Laplace residual of the rounded
+potential arrays, 2.0e-14 of their term sum), sigma_rth 4.9e-16, sigma_rph 5.8e-16, heating 5.7e-16, elastic
+(real y) exactly 0, elastic (complex y) 1.0e-16.  All scales carry an absolute floor of 1e-280 (potential values
+like sin(m*1e-308) are subnormal and their products lose relative accuracy).  A wrong coefficient moves the
+hooke / sigma_rr residual to O(0.01..1) of the scale, i.e. >= 1e9 x the tolerance.
 
-Sensitivity (tools/mut.py, quick tier): see the list at the end of this docstring.
+Not checked (the statement has no clause for them): eps_thph beyond Hooke's law, calculate_displacements.
+
+Sensitivity (tools/mut.py, 300 cases, all CAUGHT):
   heating.py        `2. * (stress_imag[4] * strain_real[4] ...` -> `1. * (...`  (dropped factor on one cross term)  CAUGHT heating/value
   stress_strain.py  `lame       = bulk - (2. / 3.) * shear` -> `(1. / 3.)`                                         CAUGHT hooke
   stress_strain.py  `order_l * (order_l + 1.) * y3` -> `order_l * (order_l - 1.) * y3` in dy1_dr                  CAUGHT traction/rr
   stress_strain.py  `strains[4, ...] = y4_shear * s4_t0 / 2.` -> `y4_shear * tp_p_p / 2.` (lost 1/sin theta)      CAUGHT traction/rph
   stress_strain.py  `if k < 3:` -> `if k < 2:` (lambda tr(eps) missing from sigma_phph)                           CAUGHT hooke
+  stress_strain.py  `+ cot_theta * tp_p_t` -> `- cot_theta * tp_p_t` in eps_phph                                  CAUGHT traction/rr
 """
 import math
 
@@ -63,14 +68,14 @@ LEVEL_NOTE = ('Trusts numpy complex arithmetic and the self-tested harmonic orac
               'identity, central differences); the l=2 repository potentials are trusted only after passing the Laplace '
               'identity in-check (their own correctness is C14). Colatitudes within 0.05 rad of the poles, liquid layers '
               '(mu = 0) and lambda + 2 mu = 0 are outside the generated domain.')
-CASES = {'quick': 700, 'thorough': 60000}
+CASES = {'quick': 1600, 'thorough': 60000}
 SHARDS = {'quick': 8, 'thorough': 16}
 
 HOOKE_TOL = 1e-12
 TRAC_TOL = 1e-11
 HEAT_TOL = 1e-12
 ELASTIC_TOL = 1e-14
-ELASTIC_CY_TOL = 1e-13
+ELASTIC_CY_TOL = 1e-14
 LAPLACE_TOL = 1e-11
 W = np.array([1.0, 1.0, 1.0, 2.0, 2.0, 2.0])
 
@@ -79,7 +84,7 @@ RULE = ('Hypothesis draws degree l in {2,3,4}, 1..4 radii, complex y1..y4 and co
         'coefficients and analytic derivatives, or for l=2 a repository potential) and lon/colat/time grids of 1..6 points. '
         'Non-trivial: complex shear modulus (loss angle > 1e-3) and each of the six potential arrays has a non-negligible '
         'entry (max |.| > 1e-6 x max |U| scale); distinct = distinct case hash.')
-ASSUMPTIONS = ['hooke 1e-12, tractions 1e-11, heating 1e-12 of the sum of term magnitudes; elastic 1e-14 (real y) / 1e-13 (complex y)',
+ASSUMPTIONS = ['hooke 1e-12, tractions 1e-11, heating 1e-12 of the sum of term magnitudes; elastic 1e-14',
                'potential arrays satisfy U_tt + cot U_t + U_pp/sin^2 = -l(l+1) U to 1e-11 (checked per case, else discard)',
                'colatitude in [0.05, pi-0.05]; |mu| > 0; Re K, Re mu > 0']
 
@@ -103,7 +108,7 @@ COEF = st.floats(-1.0, 1.0)
 Y_SMALL = st.tuples(logu(1e-6, 1.0), PHASE).map(list)
 Y_BIG = st.tuples(logu(1.0, 1e8), PHASE).map(list)
 LAYER = st.fixed_dictionaries({
-    'r': logu(1e3, 1e7), 'mu_abs': logu(1e7, 1e12), 'mu_loss': st.floats(0.0, 1.5), 'K_abs': logu(1e8, 1e13),
+    'r': logu(1e3, 1e7), 'mu_abs': logu(1e7, 1e12), 'mu_loss': st.floats(0.002, 1.5), 'K_abs': logu(1e8, 1e13),
     'K_loss': st.floats(0.0, 0.3), 'y': st.tuples(Y_SMALL, Y_BIG, Y_SMALL, Y_BIG).map(list)})
 LON = st.lists(st.floats(0.0, 2.0 * math.pi), min_size=1, max_size=6)
 COLAT = st.lists(st.floats(0.05, math.pi - 0.05), min_size=1, max_size=6)
@@ -189,7 +194,7 @@ def in_domain(case):
               and 1 <= len(case['layers']) <= 4 and case['mode'] in ('visco', 'elastic', 'elastic_cy')
               and case['bulk_dtype'] in ('float', 'complex') and _rng(case['frequency'], 1e-8, 1e-2))
         for la in case['layers']:
-            ok = ok and (_rng(la['r'], 1e3, 1e7) and _rng(la['mu_abs'], 1e7, 1e12) and _rng(la['mu_loss'], 0.0, 1.5)
+            ok = ok and (_rng(la['r'], 1e3, 1e7) and _rng(la['mu_abs'], 1e7, 1e12) and _rng(la['mu_loss'], 0.002, 1.5)
                          and _rng(la['K_abs'], 1e8, 1e13) and _rng(la['K_loss'], 0.0, 0.3) and len(la['y']) == 4
                          and all(len(v) == 2 and _rng(v[1], -math.pi, math.pi) for v in la['y'])
                          and _rng(la['y'][0][0], 1e-6, 1.0) and _rng(la['y'][2][0], 1e-6, 1.0)
@@ -224,10 +229,10 @@ def _potential(case, lon, colat, tfrac):
     lon_m, col_m, t_m = (np.ascontiguousarray(x) for x in (lon_m, col_m, t_m))
     with repo_call('tides.potential.' + p['kind']):
         if p['kind'] == 'repo_simple':
-            _, _, tup = tp.tidal_potential_simple(p['R'], lon_m, col_m, t_m, n, p['e'], p['host_mass'], p['a'])
+            _, _, tup = _cache_safe(tp.tidal_potential_simple, p['R'], lon_m, col_m, t_m, n, p['e'], p['host_mass'], p['a'])
         else:
-            _, _, tup = tp.tidal_potential_nsr(p['R'], lon_m, col_m, t_m, n, p['spin_ratio'] * n, p['e'], p['host_mass'],
-                                               p['a'], False)
+            _, _, tup = _cache_safe(tp.tidal_potential_nsr, p['R'], lon_m, col_m, t_m, n, p['spin_ratio'] * n, p['e'],
+                                    p['host_mass'], p['a'], False)
         keys = list(tup.keys())
         v = tup[keys[0]]
         # repository order: U, U_t, U_p, U_tt, U_pp, U_tp
@@ -269,6 +274,22 @@ def _inputs(case):
 
 # ---- evaluate -------------------------------------------------------------------------------------------------------
 
+def _cache_safe(f, *args):
+    """Call a numba dispatcher; if numba's on-disk cache directory vanished underneath us (another harness process
+    pruned /verif/.nbcache while this one was compiling) recreate it and retry - an infrastructure race, not a
+    property of the code under test."""
+    import os
+    from vlib.result import HarnessError
+    for attempt in range(3):
+        try:
+            return f(*args)
+        except OSError as ex:
+            if 'nbcache' not in str(ex) or attempt == 2:
+                raise HarnessError('numba cache I/O failed: %s' % ex)
+            if ex.filename:
+                os.makedirs(os.path.dirname(str(ex.filename)), exist_ok=True)
+
+
 def _fns():
     from TidalPy.tides.multilayer.stress_strain import calculate_strain_stress
     from TidalPy.tides.heating import calculate_volumetric_heating
@@ -303,10 +324,10 @@ def evaluate(case):
     strain_fn, heat_fn = _fns()
     times = tfrac * 1.0e5
     with repo_call('calculate_strain_stress'):
-        strains, stresses = strain_fn(U, Ut, Up, Utt, Upp, Utp, y, lon, colat, times, radius, shear, bulk,
-                                      float(case['frequency']), l)
+        strains, stresses = _cache_safe(strain_fn, U, Ut, Up, Utt, Upp, Utp, y, lon, colat, times, radius, shear, bulk,
+                                        float(case['frequency']), l)
     with repo_call('calculate_volumetric_heating'):
-        heating = heat_fn(stresses, strains)
+        heating = _cache_safe(heat_fn, stresses, strains)
     shp = (6, nr, nl, nc, nt)
     ok = (strains.shape == shp and stresses.shape == shp and heating.shape == shp[1:]
           and strains.dtype == np.complex128 and stresses.dtype == np.complex128)
